@@ -211,9 +211,14 @@ func bfgs(f_ Objective, f ObjectiveInSitu, x0 Vector, H0 Matrix, epsilon Epsilon
   P2 := NullDenseReal64Vector(n)
   X2 := AsDenseReal64Vector(x1)
 
+  // positions are considered equal if no component differs by more than
+  // a few units in the last place, further steps of this size cannot make
+  // progress but might creep along an active constraint forever
   equals := func(x1, x2 Vector) bool {
     for i := 0; i < x1.Dim(); i++ {
-      if x1.At(i).GetFloat64() != x2.At(i).GetFloat64() {
+      a := x1.At(i).GetFloat64()
+      b := x2.At(i).GetFloat64()
+      if math.Abs(a - b) > 4.0*2.220446e-16*math.Max(math.Abs(a), math.Abs(b)) + 2.225074e-308 {
         return false
       }
     }
